@@ -242,6 +242,8 @@ def check(tree, rep, tier='quick', seed=0):
     R.k1b_cli_reports(core, rep)         # the verdict the user sees is this call's verdict (one solve per Solver; the flag is never cleared)
     R.k20_ctrl_c(core, rep)              # an affirmative answer typed at the prompt reaches the gate as typed (no spelling of "yes" turns into "no")
     R.k11_input_gate(core, rep)          # ... and an amount reaches its limit gate as written: the numeric converters do not edit the text ("4,000" is invalid, not 4.0)
+    from ..linerules import l7_signals_are_called
+    l7_signals_are_called(tree, rep)     # a refusal that is named but not called (`self.not_implemented` without parentheses) refuses nothing
     from ..linerules import l2c_generators_consumed_once
     l2c_generators_consumed_once(tree, rep)      # a demand (or a gate) written inside a generator that nothing consumes never happens
     R.k2_signal_discipline(core, rep)
